@@ -40,13 +40,14 @@ def workdir():
     return d
 
 
-def decode(fmt, data, args=(), keep=False):
+def decode(fmt, data, args=(), keep=False, in_ext=None):
     """Run `<fmt>to...` start(argv) on a file holding `data`.
     -> dict(status: ok|exc|exit, exc, code, out (bytes|None), out_exists, cpu, stderr)"""
     mod = importlib.import_module(MODULES[fmt])
     d = workdir()
     _COUNTER[0] += 1
-    src = os.path.join(d, "in%d.%s" % (_COUNTER[0], EXT[fmt][0]))
+    # (in_ext: the input file's name as the user might have it - no extension, another one, upper case)
+    src = os.path.join(d, "in%d.%s" % (_COUNTER[0], EXT[fmt][0]) if in_ext is None else "IN%d%s" % (_COUNTER[0], in_ext))
     dst = os.path.join(d, "out%d.%s" % (_COUNTER[0], EXT[fmt][1]))
     with open(src, "wb") as f:
         f.write(data)
